@@ -94,16 +94,16 @@ PROPS["C02"] = Prop(
     nontrivial=G.mech_nontrivial,
 )
 
-_lu_rule = ("all patterns with full diagonal for n<=3 (quick) / n<=4 (thorough) x 4 algorithms, plus random n<=8 with "
+_lu_rule = ("decompositions created from a matrix of the same structure with another block count; family lubig (oracle L*U = A only): n = 130..370; all patterns with full diagonal for n<=3 (quick) / n<=4 (thorough) x 4 algorithms, plus random n<=8 with "
             "fill-in; CSR/CSC x standard/vector L=1..4 chosen per case, blocks 1..2L+1 (partial groups), values uniform in "
             "Z_p (p=2^31-1) or small; previous L/U contents non-zero garbage (two variants compared by the oracle); "
             "non-trivial = n>=2")
 
 PROPS["C03"] = Prop(
     "C03",
-    family_driver={"lu": ("drv_linalg", "plain")},
+    family_driver={"lu": ("drv_linalg", "plain"), "lubig": ("drv_linalg", "plain")},
     model_families={"lu"},
-    generate=lambda rng, tier: G.gen_lu(rng, tier),
+    generate=lambda rng, tier: G.gen_lu(rng, tier) + G.gen_lubig(rng, tier),
     rule=_lu_rule,
     trusted=COMMON_TRUST + ["Zp element type (harness/common/zp.hpp) in place of double: the library's own templates compute in exact arithmetic"],
     assumptions=["non-zero pivots (cases with a zero pivot are reported as ZERO_PIVOT by both sides and skipped by the oracle)"],
@@ -113,12 +113,14 @@ PROPS["C03"] = Prop(
 
 PROPS["C04"] = Prop(
     "C04",
-    family_driver={"linsolve": ("drv_linalg", "plain"), "linbig": ("drv_linalg", "plain")},
+    family_driver={"linsolve": ("drv_linalg", "plain"), "linbig": ("drv_linalg", "plain"), "linscale": ("drv_linalg", "plain")},
     model_families={"linsolve"},
-    generate=lambda rng, tier: G.gen_linsolve(rng, tier) + G.gen_linbig(rng, tier),
+    generate=lambda rng, tier: G.gen_linsolve(rng, tier) + G.gen_linbig(rng, tier) + G.gen_linscale(rng, tier),
     rule=_lu_rule + "; right-hand sides uniform in Z_p, dense layout matched to the sparse ordering, padding rows hold garbage; "
          "between Factor and Solve the same solver object factors a second matrix into other storage; family linbig "
-         "(implementation oracle A x = b only): n = 130..370 with up to 10^5 stored elements per block",
+         "(implementation oracle A x = b only): n = 130..370 with up to 10^5 stored elements per block; decompositions and "
+         "solvers are created from a matrix of the same structure with another block count; family linscale: the real "
+         "double instantiation on (A, b) and (2^-70 A, 2^-70 b): bit-identical solutions, the tiny system not refused",
     trusted=COMMON_TRUST + ["Zp element type in place of double"],
     assumptions=["non-zero pivots"],
     nontrivial=lambda l: int(l.split()[5]) >= 2,
